@@ -208,6 +208,10 @@ func GenSpec(t *rapid.T) *Spec {
 		}
 		j.SampleLimit = rapid.SampledFrom([]int{0, 0, 1000, 50000}).Draw(t, l+"-sampleLimit")
 		j.LabelLimit = rapid.SampledFrom([]int{0, 0, 30}).Draw(t, l+"-labelLimit")
+		if rapid.IntRange(0, 4).Draw(t, l+"-clientOpts") == 0 {
+			j.JobProxy = rapid.SampledFrom([]string{"", "http://corp-proxy.internal:3128"}).Draw(t, l+"-jobProxy")
+			j.NoFollow = rapid.Bool().Draw(t, l+"-noFollow")
+		}
 		if rapid.IntRange(0, 3).Draw(t, l+"-moreLimits") == 0 {
 			j.TargetLimit = rapid.SampledFrom([]int{0, 500}).Draw(t, l+"-targetLimit")
 			j.NameLenLimit = rapid.SampledFrom([]int{0, 200}).Draw(t, l+"-nameLen")
